@@ -69,6 +69,10 @@ class Executor:
         '''
         Largely passing through relevant assignments to the pool they belong to.
         '''
+        for command in list(suspensions) + list(assignments):
+            assert 0 <= command.pool_id < self.num_pools, \
+                f"command names pool {command.pool_id}, but there are only pools 0..{self.num_pools - 1}"
+
         results: List[ExecutionResult] = []
         for id_ in range(self.num_pools):
             pool_suspensions = [s for s in suspensions if s.pool_id == id_]
